@@ -5,7 +5,7 @@
 rustc="$1"; shift
 case " $* " in
   *" --crate-name stun_types "*|*" --crate-name stun_proto "*|*" --crate-name stunreplay "*)
-    exec "$rustc" "$@" --cfg kani ;;
+    exec "$rustc" "$@" --cfg kani --cfg verif_native ;;
   *)
     exec "$rustc" "$@" ;;
 esac
